@@ -70,6 +70,52 @@ def pint(mod, n, bits, length):
              fname="Int<%s, %d, %s>" % ("true" if mod == "be" else "false", bits // 8, "true" if n.startswith("I") else "false"))
 
 
+U24_PRELUDE = r"""
+// A user-defined length type: 3 bytes, alignment 1 (flatty::vec::Length is a blanket over the num-traits traits).
+#[repr(C)]
+#[derive(Clone, Copy, PartialEq, Eq, Debug, Default)]
+pub struct U24([u8; 3]);
+impl U24 {
+    fn get(self) -> u32 { u32::from_le_bytes([self.0[0], self.0[1], self.0[2], 0]) }
+    fn new(x: u32) -> Self { let b = x.to_le_bytes(); U24([b[0], b[1], b[2]]) }
+}
+unsafe impl flatty::traits::FlatValidate for U24 {
+    unsafe fn validate_unchecked(_: &[u8]) -> Result<(), flatty::Error> { Ok(()) }
+}
+unsafe impl flatty::Flat for U24 {}
+impl PartialOrd for U24 { fn partial_cmp(&self, o: &Self) -> Option<core::cmp::Ordering> { Some(self.cmp(o)) } }
+impl Ord for U24 { fn cmp(&self, o: &Self) -> core::cmp::Ordering { self.get().cmp(&o.get()) } }
+macro_rules! __u24_op {
+    ($tr:ident, $f:ident, $tra:ident, $fa:ident, $op:tt) => {
+        impl core::ops::$tr for U24 { type Output = U24; fn $f(self, r: U24) -> U24 { U24::new(self.get() $op r.get()) } }
+        impl core::ops::$tra for U24 { fn $fa(&mut self, r: U24) { *self = U24::new(self.get() $op r.get()) } }
+    };
+}
+__u24_op!(Add, add, AddAssign, add_assign, +);
+__u24_op!(Sub, sub, SubAssign, sub_assign, -);
+__u24_op!(Mul, mul, MulAssign, mul_assign, *);
+__u24_op!(Div, div, DivAssign, div_assign, /);
+__u24_op!(Rem, rem, RemAssign, rem_assign, %);
+impl num_traits::Zero for U24 { fn zero() -> Self { U24::new(0) } fn is_zero(&self) -> bool { self.get() == 0 } }
+impl num_traits::One for U24 { fn one() -> Self { U24::new(1) } }
+impl num_traits::Num for U24 {
+    type FromStrRadixErr = core::num::ParseIntError;
+    fn from_str_radix(s: &str, r: u32) -> Result<Self, Self::FromStrRadixErr> { u32::from_str_radix(s, r).map(U24::new) }
+}
+impl num_traits::Unsigned for U24 {}
+impl num_traits::Bounded for U24 { fn min_value() -> Self { U24::new(0) } fn max_value() -> Self { U24::new(0xFF_FFFF) } }
+impl num_traits::ToPrimitive for U24 {
+    fn to_u64(&self) -> Option<u64> { Some(self.get() as u64) }
+    fn to_i64(&self) -> Option<i64> { Some(self.get() as i64) }
+}
+impl num_traits::FromPrimitive for U24 {
+    fn from_u64(n: u64) -> Option<Self> { if n <= 0xFF_FFFF { Some(U24::new(n as u32)) } else { None } }
+    fn from_i64(n: i64) -> Option<Self> { if (0..=0xFF_FFFF).contains(&n) { Some(U24::new(n as u32)) } else { None } }
+}
+"""
+
+# a user-defined length type whose size is not a power of two (3 bytes, align 1): defined in the corpus prelude
+U24 = T("crate::U24", 3, 1, portable=False, length=True, trivial=True, kind="prim", name="U24", fname="U24")
 LE_U16 = pint("le", "U16", 16, True)
 LE_U32 = pint("le", "U32", 32, True)
 LE_U64 = pint("le", "U64", 64, True)
@@ -87,9 +133,13 @@ def array(t, n):
              fname="[%s; %d]" % (t.fname, n))
 
 
+def ceil_mul(x, m):
+    return -(-x // m) * m
+
+
 def flatvec(t, l):
     align = max(t.align, l.align)
-    off = max(l.size, t.align)
+    off = ceil_mul(l.size, t.align)   # C rule for #[repr(C)] { len: L, data: [T] } (= max(size, align) only for power-of-two sizes)
     em = ["flatty::vec::Empty", "flatty::vec::FromArray<%s, 2>" % t.rust]
     if t.rust in ("u8", "u16", "u32", "u64", "i32"):
         em.append("flatty::vec::FromIterator<%s, core::ops::Range<%s>>" % (t.rust, t.rust))
@@ -111,7 +161,7 @@ def flatstring(l):
 
 def flexvec(t, l):
     align = max(t.align, l.align)
-    off = max(l.size, t.align)
+    off = ceil_mul(l.size, t.align)
     em = ["flatty::flex::Empty"]
     if t.emplacers:
         e = t.emplacers[-1]
@@ -454,6 +504,7 @@ def build(tier):
                   vec_le, vec_u16_u64, vec_u128_u8, vec_sb_usize, str_u8, str_u16, str_u32, str_le, str_u64,
                   flex_vec_u16, flex_usa_u32, flex_str_u8, flex_u32_u8, flex_le, flex_bool_u16, flex_ue]
     # width/zst matrix instances (validation totality corner cases)
+    containers += [flatvec(U16, U24), flexvec(U16, U24), flatstring(U24), flatvec(U32, U24)]
     containers += [flatvec(U8, U128), flatvec(UNIT, U8), flatstring(U128), flexvec(U8, U8), flexvec(U8, U128),
                    flatvec(array(U8, 3), U16), flatvec(U16, LE_U64), flatvec(LE_U16, BE_U32), flexvec(str_le, BE_U16)]
 
@@ -532,12 +583,14 @@ edition = "2021"
 flatty = { path = "/repo" }
 flatty-io = { path = "/repo/io" }
 futures = "0.3.25"
+num-traits = { version = "0.2", default-features = false }
 """)
     open(os.path.join(out, ".cargo", "config.toml"), "w").write("[net]\noffline = true\n")
     src = []
     src.append("// GENERATED by /verif/corpus/gen.py (tier %s) -- do not edit\n" % tier)
     src.append("#![allow(dead_code, unused, non_snake_case, non_camel_case_types, non_upper_case_globals, clippy::all)]\n")
     src.append("use flatty::traits::*;\nuse flatty::Emplacer;\n\nfn r<T>(_: T) {}\n\n")
+    src.append(U24_PRELUDE)
     for d in defs:
         src.append(d.rust())
         src.append("\n")
